@@ -13,6 +13,7 @@ import (
 	"fmt"
 	"go/token"
 	"go/types"
+	"os"
 	"sort"
 	"strings"
 
@@ -62,15 +63,15 @@ type cons struct {
 	ne bool
 }
 
-func le(a, b lin) cons { return cons{l: a.addScaled(b, -1)} }                                // a <= b
-func lt(a, b lin) cons { c := a.addScaled(b, -1); c.k++; return cons{l: c} }                 // a < b  (integers)
-func ge(a, b lin) cons { return le(b, a) }                                                // a >= b
-func eqc(a, b lin) []cons { return []cons{le(a, b), le(b, a)} }                           // a == b
+func le(a, b lin) cons    { return cons{l: a.addScaled(b, -1)} }                // a <= b
+func lt(a, b lin) cons    { c := a.addScaled(b, -1); c.k++; return cons{l: c} } // a < b  (integers)
+func ge(a, b lin) cons    { return le(b, a) }                                   // a >= b
+func eqc(a, b lin) []cons { return []cons{le(a, b), le(b, a)} }                 // a == b
 
 type LB struct {
 	fieldReps     map[string]ssa.Value
 	fieldWritten  map[string]bool
-	extra         []cons             // facts valid on entry to the function (proved at every call site)
+	extra         []cons // facts valid on entry to the function (proved at every call site)
 	convSide      map[*ssa.Convert]int
 	side          map[*ssa.BinOp]int // 0 unknown, 1 proving, 2 proven, 3 failed
 	p             *Prog
@@ -602,6 +603,10 @@ func (lb *LB) defFacts(v lvar) []cons {
 	case 2:
 		out = append(out, ge(me, linVar(lvar{1, v.v})))
 		return out
+	case 3:
+		// synthetic quotient of x & (2^m-1): x = 2^m*q + (x & mask), q >= 0
+		out = append(out, ge(me, linConst(0)))
+		return out
 	case 1:
 		out = append(out, ge(me, linConst(0)))
 		switch x := v.v.(type) {
@@ -682,6 +687,11 @@ func (lb *LB) defFacts(v lvar) []cons {
 				out = append(out, ge(me, linConst(0)), le(me, linConst(k)))
 				if lb.nonneg(x.X, 0) {
 					out = append(out, le(me, a))
+					if k > 0 && k < 1<<40 && (k+1)&k == 0 {
+						// x = (k+1)*q + (x & k) for some integer q >= 0
+						q := linVar(lvar{3, x})
+						out = append(out, eqc(a, q.scale(k+1).addScaled(me, 1))...)
+					}
 				}
 			} else if k, ok := constInt(x.X); ok && k >= 0 {
 				out = append(out, ge(me, linConst(0)), le(me, linConst(k)))
@@ -709,7 +719,7 @@ func (lb *LB) defFacts(v lvar) []cons {
 				if lb.nonneg(x.X, 0) {
 					out = append(out, ge(me, linConst(0)), le(me, a))
 				} else {
-					out = append(out, ge(me, linConst(-(k - 1))))
+					out = append(out, ge(me, linConst(-(k-1))))
 				}
 			}
 		case token.QUO:
@@ -1039,6 +1049,8 @@ func infeasible(cs []cons, limit int) bool {
 	for {
 		// pick variable with smallest pos*neg
 		cnt := map[lvar][2]int{}
+		big := map[lvar]bool{} // variables with a non-unit coefficient are eliminated last, so that the
+		// constraints on them alone are formed and tightened to integers (q >= 129/128 becomes q >= 2)
 		for _, c := range work {
 			for v, co := range c.l.c {
 				x := cnt[v]
@@ -1048,6 +1060,9 @@ func infeasible(cs []cons, limit int) bool {
 					x[1]++
 				}
 				cnt[v] = x
+				if co > 1 || co < -1 {
+					big[v] = true
+				}
 			}
 		}
 		if len(cnt) == 0 {
@@ -1057,6 +1072,9 @@ func infeasible(cs []cons, limit int) bool {
 		bestCost := -1
 		for v, x := range cnt {
 			cost := x[0] * x[1]
+			if big[v] {
+				cost += 1 << 20
+			}
 			if bestCost < 0 || cost < bestCost || (cost == bestCost && fmt.Sprintf("%p%d", v.v, v.kind) < fmt.Sprintf("%p%d", best.v, best.kind)) {
 				best, bestCost = v, cost
 			}
@@ -1085,7 +1103,7 @@ func infeasible(cs []cons, limit int) bool {
 			for _, n := range neg {
 				a, b := p.l.c[best], -n.l.c[best]
 				g := gcd64(a, b)
-				comb := p.l.scale(b / g).addScaled(n.l, a/g)
+				comb := p.l.scale(b/g).addScaled(n.l, a/g)
 				delete(comb.c, best)
 				if addc(cons{l: comb}) {
 					return true
@@ -1196,6 +1214,16 @@ func (lb *LB) proveWith(goals []cons, facts []cons, subst map[lvar]lin, depth in
 	}
 	if len(failing) == 0 {
 		return true
+	}
+	if depth == 0 && lbDump && lbSite {
+		for _, g := range failing {
+			neg := cons{l: g.l.scale(-1)}
+			neg.l.k++
+			dbg("LB unproved goal %s <= 0; system:", linString(g.l))
+			for _, c := range lb.closure(append(append([]cons{}, sf...), neg), subst) {
+				dbg("    %s <= 0", linString(c.l))
+			}
+		}
 	}
 	if depth >= 4 {
 		return false
@@ -1394,7 +1422,9 @@ func (lb *LB) sitesOf(f *ssa.Function) []bsite {
 func (lb *LB) proveSite(s bsite) bool {
 	b := s.Instr.Block()
 	// trivially constant goals
+	lbSite = true
 	ok := lb.prove(s.Goals, b, nil, map[lvar]lin{}, 0)
+	lbSite = false
 	if ok {
 		lb.Proved++
 	} else {
@@ -1656,9 +1686,34 @@ func (lb *LB) loopUpperInvariants(phi *ssa.Phi) []cons {
 		if bo.Y == ssa.Value(phi) && (bo.Op == token.GTR || bo.Op == token.GEQ || bo.Op == token.NEQ || bo.Op == token.LEQ || bo.Op == token.EQL) {
 			cands = append(cands, lb.linOf(bo.X))
 		}
+		// comparisons of phi+c with a bound (offset++; if offset >= n {return}): candidates only, each is
+		// established by the induction below
+		switch bo.Op {
+		case token.LSS, token.LEQ, token.GTR, token.GEQ:
+			if isIntType(bo.X.Type()) && bo.X != ssa.Value(phi) && bo.Y != ssa.Value(phi) {
+				d := lb.linOf(bo.X).addScaled(lb.linOf(bo.Y), -1)
+				co := d.c[lvar{0, phi}]
+				if co == 1 || co == -1 {
+					rest := d.clone()
+					delete(rest.c, lvar{0, phi})
+					L := rest.scale(-co)
+					cands = append(cands, L, L.addScaled(linConst(1), -1))
+				}
+			}
+		}
 	}
 	for _, L := range cands {
 		if _, dep := L.c[lvar{0, phi}]; dep {
+			continue
+		}
+		// the bound must be loop-invariant: every variable in it is defined outside the loop
+		inv := true
+		for v := range L.c {
+			if in, ok := v.v.(ssa.Instruction); ok && in.Block() != nil && (in.Block() == h || h.Dominates(in.Block())) {
+				inv = false
+			}
+		}
+		if !inv {
 			continue
 		}
 		goal := le(me, L)
@@ -1772,4 +1827,20 @@ func loadRep(v ssa.Value) ssa.Value {
 		return best
 	}
 	return nil
+}
+
+var lbSite bool
+var lbDump = os.Getenv("GMSMCHECK_LBDUMP") != ""
+
+func linString(l lin) string {
+	var parts []string
+	for v, c := range l.c {
+		n := v.v.Name()
+		if in, ok := v.v.(ssa.Instruction); ok {
+			n += "{" + strings.TrimSpace(in.String()) + "}"
+		}
+		parts = append(parts, fmt.Sprintf("%d*%s#%d", c, n, v.kind))
+	}
+	sort.Strings(parts)
+	return strings.Join(parts, " + ") + fmt.Sprintf(" + %d", l.k)
 }
